@@ -13,6 +13,7 @@ import CbiVerif.Drv.C01
 import CbiVerif.Drv.CLex
 import CbiVerif.Drv.Compilers
 import CbiVerif.Drv.Eval
+import CbiVerif.Drv.EvalLayout
 import CbiVerif.Drv.CodeBase
 import CbiVerif.Drv.Order
 import CbiVerif.Drv.Fortran
@@ -37,6 +38,7 @@ def handlerTable : List (String × (Json → Json)) :=
   CbiVerif.Drv.CLex.handlers ++
   CbiVerif.Drv.Compilers.handlers ++
   CbiVerif.Drv.Eval.handlers ++
+  CbiVerif.Drv.EvalLayout.handlers ++
   CbiVerif.Drv.CodeBase.handlers ++
   CbiVerif.Drv.Order.handlers ++
   CbiVerif.Drv.Fortran.handlers ++
